@@ -313,7 +313,7 @@ impl Registry {
             let r = reg.clone();
             let h = std::thread::Builder::new()
                 .name(format!("sim-rayon-{id}-{i}"))
-                .stack_size(64 << 20)
+                .stack_size(16 << 20)
                 .spawn(move || worker_main(r, i))
                 .expect("spawn sim worker");
             hs.push(h);
